@@ -99,6 +99,14 @@ def main(argv):
     try:
         quick = tier == "quick"
         validated = L.correspondence(res, h, clir, rng, 250 if quick else 3000, PID, "c08")
+        v2, reattach_viol = L.attach_correspondence(res, h, rng, 300 if quick else 4000, "c08a")
+        validated += v2
+        for what, src, w, got, expect in reattach_viol[:3]:
+            res.violation("re-parsing the formatter's output attaches a comment to a different item or in a "
+                          "different role", {"kind": "impl-law", "source": src, "width": w, "driver": "lib",
+                                             "observed": got, "expected": expect,
+                                             "legend": "<leading comments (hex) joined by .>:<item index>:<trailing (hex)|->",
+                                             "rerun": "./check C08 --replay <this file>"})
         progs = L.corpus_programs(PID) + L.gen_programs(rng, 600 if quick else 15000)
         cases = L.run_search_inputs(h, clir, progs, cli_every=2 if quick else 3)
         fails = idem_failures(h, cases)
